@@ -762,6 +762,75 @@ def encrypt_engine(pid, spec, tier, seed, workdir, res):
                                           payload=dict(parameters=[unhex(x) for x in t[2:-1]], how=t[1], observed=obs, model=m)))
 
 
+def swr_engine(pid, spec, tier, seed, workdir, res):
+    """C20: stale-while-revalidate experiments in virtual time against Swr.swr_predict."""
+    known = load_known()
+    out = os.path.join(workdir, 'swr')
+    os.makedirs(out, exist_ok=True)
+    rc, log = run_harness('TestSWR', dict(VERIF_SEED=str(seed), VERIF_TIER=tier), out, timeout=3400)
+    if rc != 0 or not os.path.exists(os.path.join(out, 'swr.txt')):
+        res['errors'].append('stale-while-revalidate harness failed: ' + log[-1500:])
+        return
+    UNSET = str(-1 << 62)
+    exps = []
+    for l in open(os.path.join(out, 'swr.txt')):
+        left, _, right = l.partition(' | ')
+        t = left.split()
+        obs = dict(kv.split('=', 1) for kv in re.findall(r'(\w+=(?:"(?:[^"\\]|\\.)*"|\S+))', right))
+        exps.append((t[1:], obs, l.strip()))
+    q = ''.join('SWRX %s %s %s\n' % ('U' if t[0] == UNSET else t[0], 'N' if t[1] == '-1' else t[1], 'N' if t[2] == UNSET else t[2]) for t, _, _ in exps)
+    rc2, o, e = sh('./modelbin', cwd=MODEL, stdin=q)
+    preds = [dict(kv.split('=', 1) for kv in x.split()[1:]) for x in o.splitlines() if x.startswith('P ')]
+    if len(preds) != len(exps):
+        res['errors'].append('model prediction output: %d lines for %d experiments: %s' % (len(preds), len(exps), e[-300:]))
+        return
+    kinds = res['distribution']
+    for (t, obs, line), p in zip(exps, preds):
+        res['evaluations'] += 1
+        res['traces_validated'] += 1
+        res['nontrivial'].add(hashlib.sha1(line.encode()).hexdigest())
+        lat_kind = 'never' if t[1] == '-1' else ('beyond-timeout' if p['cancelled'] == 'true' else 'within-timeout')
+        kinds['latency:' + lat_kind] = kinds.get('latency:' + lat_kind, 0) + 1
+        kinds['cancel:' + ('none' if t[2] == UNSET else 'before' if t[2] == '-1' else 'after')] = kinds.get('cancel:' + ('none' if t[2] == UNSET else 'before' if t[2] == '-1' else 'after'), 0) + 1
+        kinds['setting:' + ('unset' if t[0] == UNSET else 'nonpositive' if int(t[0]) <= 0 else 'positive')] = kinds.get('setting:' + ('unset' if t[0] == UNSET else 'nonpositive' if int(t[0]) <= 0 else 'positive'), 0) + 1
+        kinds['outcome:' + t[3]] = kinds.get('outcome:' + t[3], 0) + 1
+        if len(res['samples']) < 4 and kinds['latency:' + lat_kind] <= 1:
+            res['samples'].append(line[:400])
+        # the property, on the implementation
+        bad = []
+        if 'fg_latency' not in obs:
+            bad.append(('experiment-failed', 'the experiment did not complete: ' + line[-200:]))
+        else:
+            if obs['fg_latency'] != '0':
+                bad.append(('foreground-waited', 'the caller waited %s ns for the stale response' % obs['fg_latency']))
+            if obs['fg_err'] != 'false' or obs['fg_status'] != 'STALE' or obs['fg_body_ok'] != 'true':
+                bad.append(('foreground-failed', 'the foreground response: err=%s status=%s body_ok=%s' % (obs['fg_err'], obs['fg_status'], obs['fg_body_ok'])))
+            if obs['bg_calls'] != '1':
+                bad.append(('revalidation-count', '%s background revalidation requests were sent' % obs['bg_calls']))
+            want_cond = int(t[4])
+            if obs['bg_calls'] == '1' and int(obs['cond']) != want_cond:
+                bad.append(('not-conditional', 'validators stored: %d (1=ETag, 2=Last-Modified), conditional fields sent: %s' % (want_cond, obs['cond'])))
+            if obs['bg_calls'] == '1' and (obs['deadline'] != p['deadline'] or int(obs['bg_end']) > int(p['deadline'])):
+                bad.append(('timeout', 'deadline %s ns after the start of the background request (expected %s); it ended after %s ns' % (obs['deadline'], p['deadline'], obs['bg_end'])))
+            if obs['goroutines_left'] != '0' or 'bubble_panic' in obs:
+                bad.append(('goroutine-leak', '%s goroutines of the library left after the background request ended: %s' % (obs['goroutines_left'], obs.get('leaked_at', obs.get('bubble_panic', '')))))
+        for code, what in bad:
+            code = 'C20:' + code
+            if not known_open(pid, code, known):
+                res['violations'].append(dict(kind='monitor', code=code, case=' '.join(t),
+                                              payload=dict(experiment=line, what=what, parameters=dict(swr_timeout_setting_ns=('unset' if t[0] == UNSET else int(t[0])),
+                                                           origin_latency_ns=('never' if t[1] == '-1' else int(t[1])),
+                                                           caller_context=('not cancelled' if t[2] == UNSET else 'cancelled before the call' if t[2] == '-1' else 'cancelled %s ns after the response was returned' % t[2]),
+                                                           background_outcome=t[3], validators=int(t[4])))))
+        # correspondence with the model's prediction
+        if 'fg_latency' in obs:
+            for k in ('fg_latency', 'bg_calls', 'deadline', 'bg_end', 'cancelled', 'goroutines_left'):
+                if obs.get(k) != p[k]:
+                    res['mismatches'].append(dict(case='swr-' + '-'.join(t), exchange=0, why='%s: observed %s, model %s' % (k, obs.get(k), p[k]),
+                                                  payload=dict(experiment=line, model=p)))
+                    break
+
+
 # ---------------------------------------------------------------- replay files
 
 def write_replay(pid, name, payload):
